@@ -783,8 +783,9 @@ func (e *Evaluator) createSpeculativeObjects(specObj *Cell) (*Cell, error) {
 }
 
 func (e *Evaluator) evalAssignment(expr Expr, left *Cell, right *Cell) (*Cell, error) {
-	if left.Value.Tag == ValueNil && left.Value.ParentObj != nil {
-		// speculative object creation
+	if left.Value.ParentObj != nil {
+		// speculative object creation, or a detached copy (prototype method,
+		// character of a string) that has to be stored on its parent
 		var err error
 		left, err = e.createSpeculativeObjects(left)
 		if err != nil {
